@@ -1,25 +1,17 @@
 (* C11 — clients sharing one core package keep working as more are generated.
    Only statements, [exact], and Print Assumptions live here. *)
 From PG Require Import Lib.Strs Model.Registry Proofs.Registry.
+From PG Require Model.GenFS Model.GenJoint Proofs.GenJoint.
 
-(* Full statement (FALSE on the current tree, see the refutation F11b; F11a and F11c are fixed):
-     forall l h, Works (fold_left (step l) h init).
+(* F11a, F11b and F11c are fixed: no finding guard is left.  [wf_layout]: the core package has at least one
+   component (well-formedness of the input, not a finding).
 
-   For every core layout and every history of generate calls (any length, repetition, force on/off,
-   changing code sets) that meets the executable guard — the core package has at least one
-   component (well-formedness; F11a is fixed: a core is shared at any depth), and the client whose directory contains the core is never regenerated through the direct path
-   while that directory exists [F11b] — every generated client finds each class it imports from
-   the core among the emitted aliases, and every client reported as generated is present. *)
-Theorem C11_partial : forall l h, guard l h = true -> Works (run l h).
-Proof. exact works_under_guard. Qed.
-Print Assumptions C11_partial.
-
-(* The static form of the design: a core (at any depth) outside every client's directory:
-   all histories, no condition on the calls. *)
-Theorem C11_partial_static : forall l h,
-  is_shared l = true -> core_inside_client l = None -> Works (fold_left (step l) h init).
-Proof. exact works_shared_outside. Qed.
-Print Assumptions C11_partial_static.
+   For every core layout (any depth, inside or outside a client's directory) and EVERY history of generate
+   calls (any length, repetition, force on/off, changing code sets): every generated client finds each class
+   it imports from the core among the emitted aliases, and every client reported as generated is present. *)
+Theorem C11_full : forall l h, wf_layout l = true -> Works (run l h).
+Proof. exact works_always. Qed.
+Print Assumptions C11_full.
 
 (* regression: F11a is fixed — a core three packages deep keeps the union of both clients' classes *)
 Theorem C11_fixed_F11a :
@@ -28,11 +20,11 @@ Theorem C11_fixed_F11a :
 Proof. exact fixed_F11a. Qed.
 Print Assumptions C11_fixed_F11a.
 
-Theorem C11_refuted_F11b :
-  wf_layout l_in = true /\ guard_F11b l_in h_F11b = false
-  /\ ~ Inv (run l_in h_F11b).
-Proof. exact refuted_F11b. Qed.
-Print Assumptions C11_refuted_F11b.
+(* regression: F11b is fixed — the registry survives the force regeneration of the client that hosts the core *)
+Theorem C11_fixed_F11b :
+  wf_layout l_in = true /\ Works (run l_in h_F11b) /\ aliases (run l_in h_F11b) = Some [404; 409].
+Proof. exact fixed_F11b. Qed.
+Print Assumptions C11_fixed_F11b.
 
 (* regression: F11c is fixed (the non-force diff check reports files present on one side only) *)
 Theorem C11_fixed_F11c :
@@ -45,3 +37,26 @@ Theorem C11_guard_nonvacuous :
   guard l_ok h_ok = true /\ aliases (run l_ok h_ok) = Some [404; 409] /\ length (clients (run l_ok h_ok)) = 3%nat.
 Proof. exact guard_nonvacuous. Qed.
 Print Assumptions C11_guard_nonvacuous.
+
+(* JOINT HISTORY THEOREM of C10 and C11 (calls without injected faults; the file system decides between the
+   diff path and the direct path and drives the registry step): for every project, initial file system and
+   EVERY history of calls — any package names (invalid ones are rejected), force on/off, post-processing
+   on/off, any specs — every generated client finds its exception classes in the core, every client reported
+   as generated exists, and every path strictly below the project root was there initially or is an allowed
+   path (output package, core package, ancestor package directory / __init__.py) of one call.
+   Not covered: histories with injected faults (covered per call by the C10 theorems). *)
+Theorem C11_C10_joint_full : forall pr s0 h,
+  Proofs.GenJoint.wf_project pr = true ->
+  Model.GenJoint.Joint pr s0 h (Model.GenJoint.jrun pr s0 h).
+Proof. exact Proofs.GenJoint.joint_history. Qed.
+Print Assumptions C11_C10_joint_full.
+
+Theorem C11_C10_joint_nonvacuous :
+  Proofs.GenJoint.wf_project Proofs.GenJoint.pr_ex = true
+  /\ aliases (snd (Model.GenJoint.jrun Proofs.GenJoint.pr_ex Proofs.GenJoint.s0_ex Proofs.GenJoint.h_ex)) = Some [404; 409]
+  /\ length (clients (snd (Model.GenJoint.jrun Proofs.GenJoint.pr_ex Proofs.GenJoint.s0_ex Proofs.GenJoint.h_ex))) = 2%nat
+  /\ (length (fst (Model.GenJoint.jrun Proofs.GenJoint.pr_ex Proofs.GenJoint.s0_ex Proofs.GenJoint.h_ex)) > 40)%nat
+  /\ Model.GenFS.lookup (Proofs.GenJoint.sR ++ [[75]])
+       (fst (Model.GenJoint.jrun Proofs.GenJoint.pr_ex Proofs.GenJoint.s0_ex Proofs.GenJoint.h_ex)) = Some (Model.GenFS.File 1).
+Proof. exact Proofs.GenJoint.joint_nonvacuous. Qed.
+Print Assumptions C11_C10_joint_nonvacuous.
